@@ -117,20 +117,26 @@ def accumulate (total : Report) (p : Report) : Report :=
     ambiguous := total.ambiguous + (if p.ambiguous ≠ 0 then 1 else 0)
     concreteAmbiguous := total.concreteAmbiguous + (if p.concreteAmbiguous ≠ 0 then 1 else 0) }
 
-/-- write the v-table entries of one method: `cls->vtbl[m.slots[dim] - cls->first_slot] = …` -/
+/-- the writes `cls->vtbl[m.slots[dim] - cls->first_slot] = {method, dim, group}` of one method, in
+    the order of the C++ loops: (class, slot, entry) -/
+def writesOf (st : SlotSt) (mi : Nat) (groups : List (List Group)) : List (Nat × Nat × Entry) :=
+  (List.zipIdx groups).flatMap (fun (gs, dim) =>
+    (List.zipIdx gs).flatMap (fun (gr, gi) =>
+      gr.classes.map (fun c => (c, st.slots (mi, dim), ({ method := mi, vp := dim, group := gi } : Entry)))))
+
+/-- one write, with the bounds `std::vector::operator[]` does not check -/
+def stepWrite (st : SlotSt) (vt : List (List Entry)) (w : Nat × Nat × Entry) : Except Err (List (List Entry)) :=
+  match vt[w.1]? with
+  | none => .error (.fault "v-table of unknown class")
+  | some row =>
+    if w.2.1 < st.first.get w.1 ∨ w.2.1 - st.first.get w.1 ≥ row.length then
+      .error (.fault s!"v-table index out of range: class {w.1} slot {w.2.1}")
+    else .ok (vt.set w.1 (row.set (w.2.1 - st.first.get w.1) w.2.2))
+
+/-- write the v-table entries of one method -/
 def writeEntries (st : SlotSt) (mi : Nat) (groups : List (List Group))
     (vt : List (List Entry)) : Except Err (List (List Entry)) :=
-  let writes : List (Nat × Nat × Entry) :=
-    (List.zipIdx groups).flatMap (fun (gs, dim) =>
-      (List.zipIdx gs).flatMap (fun (gr, gi) =>
-        gr.classes.map (fun c => (c, st.slots (mi, dim), { method := mi, vp := dim, group := gi }))))
-  writes.foldlM (fun vt (c, slot, e) =>
-    match vt[c]? with
-    | none => .error (.fault "v-table of unknown class")
-    | some row =>
-      if slot < st.first.get c ∨ slot - st.first.get c ≥ row.length then
-        .error (.fault s!"v-table index out of range: class {c} slot {slot}")
-      else .ok (vt.set c (row.set (slot - st.first.get c) e))) vt
+  (writesOf st mi groups).foldlM (stepWrite st) vt
 
 structure Compiled where
   graph : Graph
